@@ -156,7 +156,7 @@ theorem lookup_view {cfg : Cfg} (hd : Disjoint cfg.table) {ia : List Nat} (hb : 
 
 /-- the merged handler's stored handlers are the member's, with the member's positions mapped to the
     indices of the merged configuration -/
-theorem valueHandlers_view {cfg : Cfg} (hd : Disjoint cfg.table) {ia : List Nat}
+theorem group_valueHandlers_view {cfg : Cfg} (hd : Disjoint cfg.table) {ia : List Nat}
     (hb : ∀ a ∈ ia, a < cfg.args.length) (hn : ia.Nodup) {sts : List ArgSt} (hlen : sts.length = cfg.args.length) :
     ∀ (keys : List Key), (∀ k ∈ keys, ∃ j d, cfg.args[j]? = some d ∧ k.Sub d.key ∧ j ∈ ia) →
     valueHandlers cfg.args sts keys =
@@ -191,7 +191,7 @@ theorem getD_inj {ia : List Nat} (hn : ia.Nodup) {p q : Nat} (hp : p < ia.length
 /-- **A member evaluates the end condition of its own handler constraint as the merged handler
     does**: it passes on the member's definitions and states exactly when it passes on the merged
     ones. -/
-theorem endCheck_view {cfg : Cfg} (hd : Disjoint cfg.table) (hva : cfg.ValueArgsOk) {ia : List Nat}
+theorem group_endCheck_view {cfg : Cfg} (hd : Disjoint cfg.table) (hva : cfg.ValueArgsOk) {ia : List Nat}
     (hb : ∀ a ∈ ia, a < cfg.args.length) (hn : ia.Nodup) {sts : List ArgSt} (hlen : sts.length = cfg.args.length)
     {g : GDef} (hg : g ∈ cfg.globals)
     (hown : ∀ b, b ∉ ia → ∀ db, cfg.args[b]? = some db → isConstraintArgument g.keys db.key = false) (st : GSt) :
@@ -211,7 +211,7 @@ theorem endCheck_view {cfg : Cfg} (hd : Disjoint cfg.table) (hva : cfg.ValueArgs
   | oneOf => unfold GDef.endCheck; rw [hk]
   | differ =>
     obtain ⟨kd, _, hnames⟩ := (hva g hg).1 hk
-    obtain ⟨hmap, hlt⟩ := valueHandlers_view hd hb hn hlen g.keys (by
+    obtain ⟨hmap, hlt⟩ := group_valueHandlers_view hd hb hn hlen g.keys (by
       intro k hkm
       obtain ⟨j, d, hj, hs, _⟩ := hnames k hkm
       exact ⟨j, d, hj, hs, hin k hkm j d hj hs⟩)
@@ -231,7 +231,7 @@ theorem endCheck_view {cfg : Cfg} (hd : Disjoint cfg.table) (hva : cfg.ValueArgs
       exact h a1 ha1 hv1 a2 ha2 (by intro hc; exact hne (by show ia.getD a1.1 0 = ia.getD a2.1 0; rw [hc])) hv2
   | disjoint =>
     obtain ⟨_, hnames⟩ := (hva g hg).2 hk
-    obtain ⟨hmap, _⟩ := valueHandlers_view hd hb hn hlen g.keys (by
+    obtain ⟨hmap, _⟩ := group_valueHandlers_view hd hb hn hlen g.keys (by
       intro k hkm
       obtain ⟨j, d, hj, hs, _⟩ := hnames k hkm
       exact ⟨j, d, hj, hs, hin k hkm j d hj hs⟩)
